@@ -159,6 +159,10 @@ fn guarded(id: usize, s: &Arc<Sched>, rec: &Arc<Mutex<Rec>>, body: impl FnOnce()
     }
 }
 
+/// handles that must stay alive until the judgement's snapshot has been taken (dropping them earlier would be
+/// an action of the scenario); dropped with the run instead of being leaked
+type Keep = Arc<Mutex<Vec<Box<dyn std::any::Any + Send>>>>;
+
 fn conn_of(e: &h3::error::StreamError) -> Option<String> {
     match sout(e) {
         SOut::Conn(c) => Some(c.to_string()),
@@ -239,12 +243,14 @@ fn one_run_client(ctx: &RunCtx) -> RunOut {
     let nthreads = 1 + ntasks;
     let s = Arc::new(Sched { m: Mutex::new(Inner { current: None, st: vec![St::Runnable; nthreads], trace: vec![], abort: false }), cv: Condvar::new(), fine: draw(2) == 1 });
     let rec: Arc<Mutex<Rec>> = Default::default();
+    let keep: Keep = Default::default();
     let mut joins = vec![];
     // T0: the driver
     {
         let s0 = s.clone();
         let rec = rec.clone();
         let mut driver = driver;
+        let keepd = keep.clone();
         joins.push(std::thread::spawn(move || {
             let (sg, rg) = (s0.clone(), rec.clone());
             guarded(0, &sg, &rg, move || {
@@ -264,7 +270,7 @@ fn one_run_client(ctx: &RunCtx) -> RunOut {
                 s0.yield_with(0, St::Done, "done");
             }
             ME.with(|m| *m.borrow_mut() = None);
-            std::mem::forget(driver); // no teardown effects on the record
+            keepd.lock().unwrap().push(Box::new(driver)); // dropped after the judgement: no teardown effects on the record
             });
         }));
     }
@@ -274,6 +280,7 @@ fn one_run_client(ctx: &RunCtx) -> RunOut {
         let rec = rec.clone();
         let net = net.clone();
         let kind = *kind;
+        let keep = keep.clone();
         let mut sr = send_request.clone();
         joins.push(std::thread::spawn(move || {
             let (sg, rg) = (st.clone(), rec.clone());
@@ -326,7 +333,7 @@ fn one_run_client(ctx: &RunCtx) -> RunOut {
                                             Ok(_) => push("recv_data(later)", "ok".into()),
                                         }
                                     }
-                                    std::mem::forget(stream);
+                                    keep.lock().unwrap().push(Box::new(stream));
                                 }
                             }
                         }
@@ -337,7 +344,7 @@ fn one_run_client(ctx: &RunCtx) -> RunOut {
                                 Err(e) => push("send_request(later)", conn_of(&e).unwrap_or_else(|| format!("other: {e}"))),
                                 Ok(s2) => {
                                     push("send_request(later)", "ok".into());
-                                    std::mem::forget(s2);
+                                    keep.lock().unwrap().push(Box::new(s2));
                                 }
                             }
                         }
@@ -352,7 +359,7 @@ fn one_run_client(ctx: &RunCtx) -> RunOut {
                 st.yield_with(id, St::Done, "done");
             }
             ME.with(|m| *m.borrow_mut() = None);
-            std::mem::forget(sr);
+            keep.lock().unwrap().push(Box::new(sr));
             });
         }));
     }
@@ -360,10 +367,12 @@ fn one_run_client(ctx: &RunCtx) -> RunOut {
     if kinds == vec![Kind::DropSender] {
         drop(send_request);
     } else {
-        std::mem::forget(send_request);
+        keep.lock().unwrap().push(Box::new(send_request));
     }
     let last_sender_dropped = kinds == vec![Kind::DropSender];
-    schedule_and_judge(ctx, &s, &rec, &net, CLIENT, joins, &format!("{kinds:?}"), driver_side, last_sender_dropped)
+    let out = schedule_and_judge(ctx, &s, &rec, &net, CLIENT, joins, &format!("{kinds:?}"), driver_side, last_sender_dropped);
+    drop(keep);
+    out
 }
 
 /// The scheduler (who gets the baton next, or which transport event fires, is a drawn choice), then the
@@ -642,12 +651,14 @@ fn one_run_server(ctx: &RunCtx) -> RunOut {
     let nthreads = 1 + ntasks;
     let s = Arc::new(Sched { m: Mutex::new(Inner { current: None, st: vec![St::Runnable; nthreads], trace: vec![], abort: false }), cv: Condvar::new(), fine: draw(2) == 1 });
     let rec: Arc<Mutex<Rec>> = Default::default();
+    let keep: Keep = Default::default();
     let mut joins = vec![];
     // T0: the driver
     {
         let s0 = s.clone();
         let rec = rec.clone();
         let slots = slots.clone();
+        let keep0 = keep.clone();
         joins.push(std::thread::spawn(move || {
             let (sg, rg) = (s0.clone(), rec.clone());
             guarded(0, &sg, &rg, move || {
@@ -663,7 +674,7 @@ fn one_run_server(ctx: &RunCtx) -> RunOut {
                                     slots[handed].put(res);
                                     handed += 1;
                                 } else {
-                                    std::mem::forget(res);
+                                    keep0.lock().unwrap().push(Box::new(res));
                                 }
                             }
                             Some(Ok(None)) => {
@@ -687,7 +698,7 @@ fn one_run_server(ctx: &RunCtx) -> RunOut {
                     s0.yield_with(0, St::Done, "done");
                 }
                 ME.with(|m| *m.borrow_mut() = None);
-                std::mem::forget(server); // no teardown effects on the record
+                keep0.lock().unwrap().push(Box::new(server)); // dropped after the judgement: no teardown effects on the record
             });
         }));
     }
@@ -696,6 +707,7 @@ fn one_run_server(ctx: &RunCtx) -> RunOut {
         let st = s.clone();
         let rec = rec.clone();
         let kind = *kind;
+        let keep = keep.clone();
         let slot = slots[t].clone();
         joins.push(std::thread::spawn(move || {
             let (sg, rg) = (st.clone(), rec.clone());
@@ -738,7 +750,7 @@ fn one_run_server(ctx: &RunCtx) -> RunOut {
                                         Ok(_) => push("recv_data(later)", "ok".into()),
                                     }
                                 }
-                                std::mem::forget(stream);
+                                keep.lock().unwrap().push(Box::new(stream));
                             }
                         }
                     }
@@ -749,7 +761,9 @@ fn one_run_server(ctx: &RunCtx) -> RunOut {
         }));
     }
     let _ = sids;
-    schedule_and_judge(ctx, &s, &rec, &net, SERVER, joins, &format!("{kinds:?}"), driver_side, false)
+    let out = schedule_and_judge(ctx, &s, &rec, &net, SERVER, joins, &format!("{kinds:?}"), driver_side, false);
+    drop(keep);
+    out
 }
 
 impl Check for C05 {
